@@ -6,6 +6,8 @@ import ModbusProofs.Lemmas.ClientLoop
   after-read hook is called with exactly those (bytes, count, error), in order, once per read performed.
   The before-write hook gets the encoded request, the before-parse hook the concatenation of the bytes read,
   and the outcome does not depend on whether hooks are installed.
+  Counting: the before-write hook fires exactly once per call, the before-parse hook at most once, a rejected
+  write is followed by no other hook, and without hooks nothing is recorded.
 -/
 namespace Modbus.Properties.C19
 open Modbus Modbus.Model Modbus.Lemmas
@@ -66,5 +68,58 @@ theorem no_parse_hook_on_error (k : ClientKind) (fl : Flusher) (req : Bytes) (ex
 example : (doExchange .tcp .none true [0xAA] 4 false [.data [1, 2], .timeout, .data [3, 4]]).2 =
     [.beforeWrite [0xAA], .afterRead [1, 2] 2 "nil", .afterRead [] 0 "timeout", .afterRead [3, 4] 2 "nil",
      .beforeParse [1, 2, 3, 4]] := by decide
+
+/-- without hooks nothing is recorded -/
+theorem hooks_off_silent (k : ClientKind) (fl : Flusher) (req : Bytes) (expected : Nat) (w : Bool) (script : List Ev) :
+    (doExchange k fl false req expected w script).2 = [] := by
+  unfold doExchange
+  simp only [Bool.false_eq_true, if_false]
+  split_ifs
+  · rfl
+  · cases readLoop k fl expected script [] [] with
+    | mk out log => cases out with
+      | err e => rfl
+      | frame bs => simp only []; split <;> rfl
+
+/-- a rejected write: the hook saw the request, and nothing else (no read was attempted) -/
+theorem write_rejected_log (k : ClientKind) (fl : Flusher) (req : Bytes) (expected : Nat) (script : List Ev) :
+    (doExchange k fl true req expected true script).2 = [.beforeWrite req] := by
+  unfold doExchange
+  simp
+
+def isBW : HookEv → Bool | .beforeWrite _ => true | _ => false
+def isBP : HookEv → Bool | .beforeParse _ => true | _ => false
+
+theorem loop_log_plain (k : ClientKind) (fl : Flusher) (expected : Nat) (script : List Ev) :
+    ∀ e ∈ (readLoop k fl expected script [] []).2, isBW e = false ∧ isBP e = false := by
+  obtain ⟨n, _, h2, _⟩ := readLoop_log k fl expected script [] []
+  intro e he
+  rcases h2 with h | h <;> rw [h] at he <;>
+    simp only [List.nil_append, List.mem_append, List.mem_map, List.mem_singleton] at he
+  · obtain ⟨x, _, rfl⟩ := he; exact ⟨rfl, rfl⟩
+  · rcases he with ⟨x, _, rfl⟩ | rfl <;> exact ⟨rfl, rfl⟩
+
+/-- the before-write hook fires exactly once per call and the before-parse hook at most once -/
+theorem write_hook_once_parse_hook_at_most_once (k : ClientKind) (fl : Flusher) (req : Bytes) (expected : Nat)
+    (w : Bool) (script : List Ev) :
+    ((doExchange k fl true req expected w script).2.filter isBW).length = 1 ∧
+    ((doExchange k fl true req expected w script).2.filter isBP).length ≤ 1 := by
+  have hp := loop_log_plain k fl expected script
+  have hbw : (readLoop k fl expected script [] []).2.filter isBW = [] :=
+    List.filter_eq_nil_iff.mpr (fun e he => by simp [(hp e he).1])
+  have hbp : (readLoop k fl expected script [] []).2.filter isBP = [] :=
+    List.filter_eq_nil_iff.mpr (fun e he => by simp [(hp e he).2])
+  unfold doExchange
+  simp only [if_true]
+  split_ifs
+  · simp [List.filter_cons, isBW, isBP]
+  · rcases hrl : readLoop k fl expected script [] [] with ⟨out, log⟩
+    rw [hrl] at hbw hbp
+    simp only at hbw hbp
+    cases out with
+    | err e => simp [List.filter_cons, hbw, hbp, isBW, isBP]
+    | frame bs =>
+      simp only []
+      split <;> simp [List.filter_cons, List.filter_append, hbw, hbp, isBW, isBP]
 
 end Modbus.Properties.C19
